@@ -64,7 +64,8 @@ def clean(fr, level=14):
         return fr
     tol = abs(fr) * Fraction(1, 10 ** (level - 1))
     c = fr.limit_denominator(10 ** 5)
-    if abs(c - fr) <= tol:
+    # a fraction this close by accident has numerator * denominator of the order 10^(level-1) or more
+    if abs(c - fr) <= tol and max(abs(c.numerator), 1) * c.denominator < 10 ** (level - 2):
         return c
     for digits in range(1, 16):
         c = Fraction("%.*g" % (digits, float(fr)))
